@@ -3,8 +3,8 @@ from ..tlc import MachineryError
 from . import interp_common as IC
 from .c05 import replay  # noqa: F401
 
-GROUPS = {"quick": ["InitPath(3)", "InitPathCtm(3)", "InitColor(3)", "InitZero", "InitZero2", "InitMixed"],
-          "thorough": ["InitPath(4)", "InitPathCtm(4)", "InitColor(4)", "InitZero", "InitZero2", "InitMixed"]}
+GROUPS = {"quick": ["InitPath(3)", "InitPaint(3)", "InitPathCtm(3)", "InitColor(3)", "InitZero", "InitZero2", "InitMixed"],
+          "thorough": ["InitPath(4)", "InitPaint(4)", "InitPathCtm(4)", "InitColor(4)", "InitZero", "InitZero2", "InitMixed"]}
 
 
 def run(ck):
@@ -13,7 +13,7 @@ def run(ck):
     for init in GROUPS[ck.tier]:
         IC.run_group(ck, "C16", init, {"shapes"}, cover)
     if cover:
-        missing = [a for a in ["m", "l", "c", "v", "y", "h", "re", "S", "s", "f*", "B", "B*", "b", "n", "w", "d", "q", "Q", "cm", "g", "G", "rg", "RG",
+        missing = [a for a in ["m", "l", "c", "v", "y", "h", "re", "S", "s", "f", "F", "f*", "B", "B*", "b", "b*", "n", "w", "d", "q", "Q", "cm", "g", "G", "rg", "RG",
                                "k", "K", "cs", "CS", "sc", "scn", "SCN"] if not cover.get(a)]
         if missing:
             raise MachineryError("vacuous: interpreter action(s) never taken: %s" % missing)
